@@ -59,7 +59,7 @@ def fill_receivers(repo, cls, f):
                     attrs |= var_src[a.id]          # e.g. a tuple of alternatives bound earlier
             if attrs:
                 for x in ast.walk(tgt):
-                    if isinstance(x, ast.Name):
+                    if isinstance(x, ast.Name) and isinstance(x.ctx, ast.Store):
                         var_src.setdefault(x.id, set()).update(attrs)
     # copies, selections, tuples of alternatives and loops over them propagate the source slots
     # (`ret = sub`, `ret = (sub,)`, `x = a if c else b`, `for target in ret`)
@@ -84,7 +84,7 @@ def fill_receivers(repo, cls, f):
                 if not src:
                     continue
                 for x in ast.walk(tgt):
-                    if isinstance(x, ast.Name):
+                    if isinstance(x, ast.Name) and isinstance(x.ctx, ast.Store):
                         cur = var_src.setdefault(x.id, set())
                         if not src <= cur:
                             cur |= src
